@@ -342,7 +342,7 @@ def mirrorFile (e : Env) (o : MOpts) (st : CEnts × CEnts) (k : Name) (b : Bytes
 def mirrorDirEntry (st : CEnts × CEnts) (k : Name) : CEnts × CEnts :=
   match lookup k st.2 with
   | some (.dir _) => (st.1, erase k st.2)
-  | some (.file _ _) => (erase k st.1, erase k st.2)      -- remove it (and do NOT make the directory)
+  | some (.file _ _) => (put k (.dir []) (erase k st.1), erase k st.2)   -- remove it, makedir(recreate=True)
   | none => (put k (.dir []) st.1, st.2)                  -- makedir(recreate=True)
 
 /-- `for _file in files:` — the walker's files of this directory -/
